@@ -4,6 +4,7 @@
 package simdisk
 
 import (
+	"fmt"
 	"sort"
 	"sync"
 
@@ -240,13 +241,70 @@ func (d *CrashDB) DeleteSync(k []byte) error {
 	return d.apply("DeleteSync", []kv{{k: string(k), del: true}}, true)
 }
 
+// Iterators are snapshots, as goleveldb's are: MemDB's own iterator keeps the read lock while
+// more than 64 items are outstanding, so code that deletes while it iterates (legal on the
+// production back end, e.g. evidence.Pool.removeExpiredPendingEvidence) would deadlock on it.
 func (d *CrashDB) Iterator(start, end []byte) (dbm.Iterator, error) {
-	return d.mem.Iterator(start, end)
+	return d.snapshot(start, end, false)
 }
 
 func (d *CrashDB) ReverseIterator(start, end []byte) (dbm.Iterator, error) {
-	return d.mem.ReverseIterator(start, end)
+	return d.snapshot(start, end, true)
 }
+
+func (d *CrashDB) snapshot(start, end []byte, reverse bool) (dbm.Iterator, error) {
+	if (start != nil && len(start) == 0) || (end != nil && len(end) == 0) {
+		return nil, fmt.Errorf("empty key")
+	}
+	var it dbm.Iterator
+	var err error
+	if reverse {
+		it, err = d.mem.ReverseIterator(start, end)
+	} else {
+		it, err = d.mem.Iterator(start, end)
+	}
+	if err != nil {
+		return nil, err
+	}
+	sn := &snapIter{start: start, end: end}
+	for ; it.Valid(); it.Next() {
+		sn.keys = append(sn.keys, append([]byte{}, it.Key()...))
+		sn.vals = append(sn.vals, append([]byte{}, it.Value()...))
+	}
+	if err := it.Close(); err != nil {
+		return nil, err
+	}
+	return sn, nil
+}
+
+type snapIter struct {
+	start, end []byte
+	keys, vals [][]byte
+	pos        int
+}
+
+func (s *snapIter) Domain() ([]byte, []byte) { return s.start, s.end }
+func (s *snapIter) Valid() bool              { return s.pos < len(s.keys) }
+func (s *snapIter) Next() {
+	if !s.Valid() {
+		panic("iterator is invalid")
+	}
+	s.pos++
+}
+func (s *snapIter) Key() []byte {
+	if !s.Valid() {
+		panic("iterator is invalid")
+	}
+	return s.keys[s.pos]
+}
+func (s *snapIter) Value() []byte {
+	if !s.Valid() {
+		panic("iterator is invalid")
+	}
+	return s.vals[s.pos]
+}
+func (s *snapIter) Error() error { return nil }
+func (s *snapIter) Close() error { return nil }
 
 func (d *CrashDB) Close() error             { return nil }
 func (d *CrashDB) Print() error             { return nil }
